@@ -4106,7 +4106,14 @@ func (r *Resolver) resolveWithCachedNameservers(ctx context.Context, rs *resolve
 		return nil, errMaxDepth
 	}
 
-	rs.level++
+	// The level is the label count of the zone whose servers are asked
+	// next — processDelegation sets it that way when it learns a cut, and
+	// the glue check takes its bailiwick from it. Counting up by one is
+	// the same thing only while every cut is one label deep: after a
+	// cached delegation that skips a level (test. -> attacker.co.test.)
+	// the child's servers were asked at level 2, and their glue for a
+	// sibling's name server (ns.victim.co.test.) passed as in-bailiwick.
+	rs.level = dns.CountLabel(q.Name)
 	rs.servers = cached.Servers
 	rs.parentDS = cached.DSSet
 	rs.isRoot = false
